@@ -179,6 +179,18 @@ def vector_pool(rng, ref, scheme, n):
         v = np.minimum(np.maximum(v, lo), hi)
         if all(not np.array_equal(v, np.array(p)) for p in pool):
             pool.append(v.tolist())
+    # a finite-difference neighbour of an existing vector (relative step 2^-26 on one entry): what least_squares evaluates
+    # for the Jacobian (seeded change C10-2: the expression fixpoint loop stopped on np.isclose for such steps)
+    if len(x0):
+        base = np.array(pool[rng.randrange(len(pool))], dtype=float)
+        # every entry moves (a late, tiny optimiser step), so whichever parameter an expression depends on has changed
+        base = np.where(base != 0, base * (1.0 + 2.0 ** -26), 2.0 ** -30)
+        base = np.minimum(np.maximum(base, lo), hi)
+        vector_pool.fd_pair = None
+        if all(not np.array_equal(base, np.array(p)) for p in pool):
+            src = min(range(len(pool)), key=lambda i: float(np.max(np.abs(np.array(pool[i]) - base))))
+            pool.append(base.tolist())
+            vector_pool.fd_pair = (src, len(pool) - 1)
     return pool
 
 
@@ -1084,6 +1096,10 @@ def make_walk_case(ck, ref, n_ops=None):
     mcalls, rcalls = calls_per_evaluation(struct)
     pool = vector_pool(ck.rng, ref, scheme, ck.rng.randint(3, 5))
     ops = random_ops(ck.rng, n_ops or ck.rng.randint(6, 13), len(pool), mcalls, rcalls)
+    if getattr(vector_pool, "fd_pair", None):
+        # the Jacobian pattern: a vector, then its finite-difference neighbour, then the vector again
+        a, b = vector_pool.fd_pair
+        ops += [{"op": "eval", "id": a, "fault": None}, {"op": "eval", "id": b, "fault": None}, {"op": "eval", "id": a, "fault": None}]
     for g in struct["groups"]:
         ck.count("group:" + ("linked" if g["linked"] else "unlinked"))
         for d in g["datasets"]:
@@ -1144,7 +1160,7 @@ def exhaustive_pairs(ck, ref, batch):
 def run(ck):
     t0 = time.time()
     # subprocesses run while the in-process work is done
-    thread_names = ["par-noirf", "disp-irf", "artifact-osc"] if ck.quick else list(builtin.NAMES)
+    thread_names = ["par-noirf", "disp-irf", "artifact-osc", "multi-irf-indep"] if ck.quick else list(builtin.NAMES)
     thread_counts = [1, 16] if ck.quick else [1, 2, 16, 16]
     procs = []
     for i, t in enumerate(thread_counts):
@@ -1193,6 +1209,17 @@ def run(ck):
     for k in table:
         if k[3] != "T":
             ck.disagree("kernel-not-race-free", f"the model's check rejects kernel {core.dec(k[0])}", {"kind": "kernel", "name": core.dec(k[0])})
+
+    # cross-check of the source extractor: every numba dispatcher that exists at run time (whatever syntax created it) is
+    # in the table under its attribute name with the same `parallel` flag
+    in_table = {(k["name"], bool(k["parallel"])) for k in getattr(ck, "_kernels", [])}
+    live = kernels_mod.live_dispatchers()
+    ck.extra["live_dispatchers"] = [list(x) for x in live]
+    for mod, attr, pyname, par in live:
+        if (attr, par) not in in_table:
+            ck.disagree("kernel-table-incomplete", f"numba dispatcher {mod}.{attr} (python function {pyname}, parallel={par}) is "
+                        "not in the regenerated Kernels table with that flag: the race-freedom theorem does not cover it",
+                        {"kind": "kernel", "name": attr})
 
     # optimize(): snapshots, twice equal
     combos = []
